@@ -107,6 +107,9 @@ func Main(m *testing.M, prop string) {
 	}
 	rec.outPath = os.Getenv("VERIF_OUT")
 	rec.replayDir = filepath.Join(Root(), "replays", prop)
+	if d := os.Getenv("VERIF_REPLAY_DIR"); d != "" {
+		rec.replayDir = d
+	}
 	loadKnown(filepath.Join(Root(), "known_findings.json"))
 	SilenceLogs()
 	flag.Parse()
@@ -298,6 +301,12 @@ func Violation(t TB, key, detail string, repro any) {
 		rec.mu.Unlock()
 		return
 	}
+	if strings.Contains(key, "/harness/") {
+		// a failure of the harness itself (set-up could not be established) is inconclusive, never a violation
+		rec.mu.Unlock()
+		t.Fatalf("HARNESS-ERROR %s: %s", key, detail)
+		return
+	}
 	name := ""
 	if n, ok := t.(interface{ Name() string }); ok {
 		name = n.Name()
@@ -354,6 +363,18 @@ func flushLocked() {
 	if os.WriteFile(tmp, b, 0o644) == nil {
 		os.Rename(tmp, rec.outPath)
 	}
+}
+
+// Journal records the case that is about to be executed, so that a crash of the whole
+// process (a panic in a goroutine spawned by the code under test cannot be recovered)
+// can be attributed by the driver: the journal file then becomes the replay file.
+func Journal(test string, c any) {
+	if rec.outPath == "" {
+		return
+	}
+	b, _ := json.Marshal(map[string]any{"property": rec.prop, "key": rec.prop + "/process-crash", "test": test,
+		"seed": rec.seed, "shard": rec.shard, "tier": rec.tier, "case": c})
+	os.WriteFile(rec.outPath+".journal", b, 0o644)
 }
 
 // LoadReplay decodes the "case" member of a JSON replay file into v.
